@@ -80,6 +80,11 @@ func w6pGen(r *rand.Rand, prop, tier string) *simrt.Case {
 		case 1:
 			c.Faults = append(c.Faults, simrt.Fault{Kind: "s3.fail_before", Op: "s3.h.get_range", Nth: r.IntN(8), Count: 1 + r.IntN(2)})
 		case 2:
+			if r.IntN(2) == 0 {
+				// the connection drops while a segment is being downloaded
+				c.Faults = append(c.Faults, simrt.Fault{Kind: "h.body.err", Op: "h.body", Key: ".kfs", Nth: r.IntN(10), Count: 1 + r.IntN(2), Arg: int64(r.Uint32())})
+				break
+			}
 			c.Faults = append(c.Faults, simrt.Fault{Kind: "s3.fail_before", Op: "s3.h.get", Key: ".kfs", Nth: r.IntN(6), Count: 1 + r.IntN(2)})
 		case 3:
 			c.Faults = append(c.Faults, simrt.Fault{Kind: "sink.fail_before", Op: "sink.write", Nth: r.IntN(4), Count: 1 + r.IntN(2)})
